@@ -202,7 +202,8 @@ def git_fault_campaign(chk, b, rng, tier, scratch):
             if e["sig"] in ("rev-list", "cat-file --batch", "cat-file --batch-check"):
                 # stays alive without reading stdin, then dies: the feeder is blocked mid-input on the large repository
                 jobs.append((sz, shimdir, gitdir, argv, {"sig": e["sig"], "ord": e["ord"], "mode": "fault", "before_exec": True,
-                                                         "pre_ms": 300, "term": rng.choice(TERMS)}, baseline, d, jid))
+                                                         "pre_ms": 1200 if tname.startswith("large") else 300, "term": rng.choice(TERMS)},
+                             baseline, d, jid))
                 jid += 1
     res = R.pmap(fault_job, jobs, chunksize=4, chk=chk)
     delivered = 0
